@@ -125,8 +125,12 @@ def _table(e: ast.expr):
 def selection(ctx: Ctx):
     pp = ctx.repo.cls(MM, "_PopulationProportions")
     ps = ctx.repo.cls(MM, "_PopulationStandardError")
-    tp = _table(expand(ctx.repo, pp, "blocks"))
-    ts = _table(expand(ctx.repo, ps, "blocks"))
+    from ..symex import distribute_attr
+
+    # (a selection of the MEASURE with `.blocks` read off it afterwards - `self._matching_std_err.blocks` - is the selection of its blocks)
+    ep, es = distribute_attr(expand(ctx.repo, pp, "blocks")), distribute_attr(expand(ctx.repo, ps, "blocks"))
+    tp = _table(ep)
+    ts = _table(es)
     rows_g = "self._dimensions[-2].dimension_type == DT.CAT_DATE"
     cols_g = "self._dimensions[-1].dimension_type == DT.CAT_DATE"
     want_p = [
@@ -161,8 +165,8 @@ def selection(ctx: Ctx):
         return bad, n
 
     for ci, e, text_tab, want_tab, suffix, why in (
-        (pp, expand(ctx.repo, pp, "blocks"), tp, want_p, "_proportions", "rows categorical-date -> row proportions (every wave projects the full population); else columns categorical-date -> column proportions; else table proportions"),
-        (ps, expand(ctx.repo, ps, "blocks"), ts, want_s, "_std_err", "the standard error is selected by the SAME guards in the SAME order and paired with the proportion of the same direction"),
+        (pp, ep, tp, want_p, "_proportions", "rows categorical-date -> row proportions (every wave projects the full population); else columns categorical-date -> column proportions; else table proportions"),
+        (ps, es, ts, want_s, "_std_err", "the standard error is selected by the SAME guards in the SAME order and paired with the proportion of the same direction"),
     ):
         where = f"{MM}::{ci.name}.blocks"
         if text_tab == want_tab:
